@@ -174,8 +174,13 @@ func runC05(e *Engine, g G, o RunOpt) RunInfo {
 				}
 			}
 			for i := range sc.Inbound {
-				wc.Send(sc.Inbound[i].Raw)
+				before := wc.Pipe.Srv.TotalWritten
+				err := wc.Send(sc.Inbound[i].Raw)
 				sc.Inbound[i].End = wc.Pipe.Srv.TotalWritten - base
+				if err != nil || wc.Pipe.Srv.TotalWritten == before {
+					// never left the server (the connection was already gone): not part of what was received
+					sc.Inbound[i].End = 1 << 62
+				}
 				e.Yield("srv.more")
 			}
 			total = lastEnd(sc.Inbound)
